@@ -3,9 +3,11 @@ from .units_sm import SM_LEGACY, SM_LESC, SM_COMB, KIND_CFGS, step_cases, histor
 
 # quick: one representative option set per manager plus the cheap legacy ones; thorough: all 12 configurations
 QUICK_CFGS = {0: [0, 1, 4], 1: [6], 2: [9]}
-# history length from reset: legacy pairing needs 3 PDUs; LESC with asynchronous user confirmation needs
-# request, public key, poll(Cb), random, DHKey check, yes, poll(Eb) = 7 operations (thorough)
-K = {'quick': {0: 4, 1: 4, 2: 4}, 'thorough': {0: 6, 1: 7, 2: 7}}
+# history length from reset: legacy pairing needs 3 PDUs; LESC needs request, public key, poll(Cb), random, DHKey check = 5
+# operations (synchronous confirmation), 7 with an asynchronous user answer.  Measured: ~12 s CPU per operation (legacy),
+# ~70 s per operation (LESC / combined: every operation explores all five handlers) -> K = 2 quick, 5 thorough there;
+# the deeper LESC paths are covered by the inductive step cases, not by the histories.
+K = {'quick': {0: 4, 1: 2, 2: 2}, 'thorough': {0: 6, 1: 5, 2: 5}}
 
 
 def mk_cases(kind):
@@ -18,7 +20,7 @@ def mk_cases(kind):
 FLAGS = ['-DVF_MAX_INPUTS=4096']
 # the input log stays field sensitive (all input positions are path independent -> constant indices): 45 s -> 1 s per case
 CBMC = ['--max-field-sensitivity-array-size', '4096']
-COMMON = dict(unwind=70, timeout=1500, flags=FLAGS, cbmc_flags=CBMC, object_bits=11, diff_iters=200, diff_cases=4)
+COMMON = dict(unwind=70, timeout=3600, flags=FLAGS, cbmc_flags=CBMC, object_bits=14, diff_iters=200, diff_cases=4)
 PROPERTY = Property(
     'C32',
     [Harness('c32_sm_legacy', SM_LEGACY, 'harness/c32_sm.c', mk_cases(0),
@@ -26,16 +28,16 @@ PROPERTY = Property(
              bounds='cfg 0..4 (quick: 0, 1, 4); step: handled opcodes at exact length (exact-size PDU object) + symbolic opcode at lengths 0,1,6,8,16,18,23 (thorough: also 2,3,7,11,17,22); poll; histories K=4 (quick) / 6 (thorough) operations', **COMMON),
      Harness('c32_sm_lesc', SM_LESC, 'harness/c32_sm.c', mk_cases(1),
              description='lesc_security_manager: same, plus asynchronous / synchronous yes-no answers',
-             bounds='cfg 5..7 (quick: 6); lengths 0,1,6,8,16,18,64,65 (thorough: also 2,3,7,11,17); histories K=4 (quick) / 7 (thorough)', **COMMON),
+             bounds='cfg 5..7 (quick: 6); lengths 0,1,6,8,16,18,64,65 (thorough: also 2,3,7,11,17); histories K=2 (quick) / 5 (thorough)', **COMMON),
      Harness('c32_sm_comb', SM_COMB, 'harness/c32_sm.c', mk_cases(2),
              description='security_manager (legacy + LESC): same',
-             bounds='cfg 8..11 (quick: 9); lengths as LESC; histories K=4 (quick) / 7 (thorough)', **COMMON)],
+             bounds='cfg 8..11 (quick: 9); lengths as LESC; histories K=2 (quick) / 5 (thorough)', **COMMON)],
     functions=['details::security_manager_base::legacy_handle_pairing_request / _confirm / _random', 'details::security_manager_base::lesc_handle_pairing_request / _public_key / _random / _dhkey_check',
                'details::security_manager_base::lesc_l2cap_output, lesc_security_manager_output_available, error_response, create_pairing_response, legacy_c1_p1, legacy_c1_p2, legacy_create_temporary_key',
                'details::legacy_security_manager_impl / lesc_security_manager_impl / security_manager_impl ::l2cap_input, ::l2cap_output', 'details::security_manager_impl::handle_pairing_request',
                'details::legacy_security_connection_data / lesc_security_connection_data / security_connection_data (state transitions, yes_no_response)',
                'pairing_yes_no::sm_pairing_request_yes_no, pairing_numeric_output::sm_pairing_numeric_compare_output, oob_authentication_callback, bonding_data_base::bonding_db_data_t'],
-    bounds='12 manager configurations (3 managers x IO / OOB / bonding option sets); inductive step: every pairing state with all pairing data symbolic x one PDU (every opcode byte, lengths 0..MTU at the listed boundary values) or one l2cap_output poll or one user answer; histories from reset of 4 (quick) / 6-7 (thorough) operations, each a PDU with symbolic opcode / one of 4 length classes / symbolic content, a poll, or a user answer',
+    bounds='12 manager configurations (3 managers x IO / OOB / bonding option sets); inductive step: every pairing state with all pairing data symbolic x one PDU (every opcode byte, lengths 0..MTU at the listed boundary values) or one l2cap_output poll or one user answer; histories from reset of 4 / 6 operations (legacy manager), 2 / 5 operations (LESC and combined manager) in quick / thorough, each a PDU with symbolic opcode / one of 4 length classes / symbolic content, a poll, or a user answer',
     assumptions=['crypto tool box (c1, s1, f4, f5, f6, g2, p256, is_valid_public_key, key / nonce / srand / passkey generation), OOB callback and bond data base are arbitrary: every call returns unconstrained symbolic values (logged)',
                  'representation invariant of the step harness: the pairing state is one of the enumerators the manager kind uses; user_response_* only with the pairing_yes_no input capability; all other members unconstrained',
                  'the application calls yes_no_response() at most once per request and only while the request is outstanding (pairing state user_response_wait: the assert in yes_no_response); inside the callback or at any later operation',
